@@ -149,7 +149,7 @@ Definition group_of (dflt : N) (d : decl) : N := match d_set d with Some s => s 
 Definition bindable (p : params) (d : decl) : bool :=
   match d_kind d with
   | KCBuffer => true
-  | KObj _ => negb (skipped_sampler p d)
+  | KObj _ => d_extern d && negb (skipped_sampler p d)
   | KOther => false
   end.
 
@@ -183,7 +183,8 @@ Proof.
   unfold Bindings.step, binding_ok, bindable, group_of.
   destruct (d_kind d) eqn:K; cbn [fst].
   - cbn [b_set b_loc b_slots]. unfold Bindings.takes_inline. rewrite K. auto.
-  - destruct (skipped_sampler p d) eqn:S; cbn [fst]; [reflexivity|].
+  - destruct (d_extern d); cbn [negb andb fst]; [|reflexivity].
+    destruct (skipped_sampler p d) eqn:S; cbn [fst]; [reflexivity|].
     destruct (takes_inline p d) eqn:T; cbn [fst b_set b_loc b_slots]; rewrite ?T; auto.
   - reflexivity.
 Qed.
@@ -201,7 +202,8 @@ Proof.
   destruct (d_kind d); cbn [flat_map app].
   - cbn [used inl]. unfold upd. rewrite (N.eqb_sym g s).
     destruct (N.eqb_spec s g) as [->|]; cbn [app tiles total]; repeat split; lia.
-  - destruct (skipped_sampler p d); [cbn; repeat split; lia|].
+  - destruct (d_extern d); cbn [negb]; [|cbn; repeat split; lia].
+    destruct (skipped_sampler p d); [cbn; repeat split; lia|].
     destruct (takes_inline p d); cbn [used inl flat_map app]; unfold upd; rewrite (N.eqb_sym g s);
       destruct (N.eqb_spec s g) as [->|]; cbn [app tiles total]; repeat split; lia.
   - cbn; repeat split; lia.
@@ -252,7 +254,8 @@ Proof.
   set (s := match d_set d with Some s => s | None => dflt end).
   destruct (d_kind d); cbn [flat_map app inl_keys].
   - split; [auto|]. cbn [b_loc]. destruct (s =? g); intuition congruence.
-  - destruct (skipped_sampler p d); [cbn; split; [auto|intuition congruence]|].
+  - destruct (d_extern d); cbn [negb]; [|cbn; split; [auto|intuition congruence]].
+    destruct (skipped_sampler p d); [cbn; split; [auto|intuition congruence]|].
     destruct (takes_inline p d); cbn [inl_keys flat_map app].
     + destruct (mem_N s (inl_keys st)) eqn:M.
       * split; [auto|]. apply mem_N_In in M.
